@@ -184,6 +184,29 @@ partial def evalNode (env : Env) (n : Node) : M T := do
   | "Multiply", [.ms [a, b]] => do
     let x ← evalArg env a; let y ← evalArg env b
     if x.shape != y.shape then bad "Multiply: shapes differ" else pure (Tensor.zipWith (· * ·) x y)
+  | "Add@bool", [.ms [a, b]] => do
+    -- boolean addition is logical or: a + b - a*b on {0,1}
+    let x ← evalArg env a; let y ← evalArg env b
+    if x.shape != y.shape then bad "Add: shapes differ" else pure (Tensor.zipWith (fun p q => p + q - p * q) x y)
+  | "Sum@bool", [f] => do
+    let t ← evalArg env f
+    if t.ndim == 0 then bad "Sum of 0-d" else pure (t.reduceLast (fun p q => p + q - p * q) 0)
+  | "Inflate@bool", [f, d, len] => do
+    let t ← evalArg env f
+    let dm ← (← evalArg env d).toNats
+    let n ← evalNat env len
+    if t.ndim < dm.shape.length || t.shape.drop (t.ndim - dm.shape.length) != dm.shape then bad "Inflate: dofmap shape mismatch" else
+    if dm.data.any (· ≥ n) then bad "Inflate: dof out of range" else
+    pure (t.inflate (fun p q => p + q - p * q) 0 dm n)
+  | "LoopSum@bool", [.loop name, len, f, shape] => do
+    let n ← evalNat env len
+    let sh ← evalShape env shape
+    let mut acc : T := Tensor.full sh 0
+    for i in List.range n do
+      let t ← evalArg { env with loops := (name, i) :: env.loops } f
+      if t.shape != sh then bad "LoopSum: body shape ≠ announced shape"
+      acc := Tensor.zipWith (fun p q => p + q - p * q) acc t
+    pure acc
   | "Sum", [f] => do
     let t ← evalArg env f
     if t.ndim == 0 then bad "Sum of 0-d" else pure (t.reduceLast (· + ·) 0)
